@@ -886,6 +886,8 @@ class _ExpressionParser:
                 args_omitted_indices = None
                 if omitted_indices:
                     args_omitted_indices = self.parse_comma_separated(end=')', parse_item=functools.partial(self.parse_subexpression, omitted_indices=True))
+                    if not args_omitted_indices:
+                        raise _IntermediateError('A function call with omitted indices requires at least one argument.')
                 elif not consumes:
                     try:
                         index = self._index
